@@ -397,7 +397,13 @@ def _templates() -> st.SearchStrategy:
     cyclic = st.tuples(wide, small_cap, st.lists(st.sampled_from([["uint", 16, "sat"], ["uint", 32, "sat"], ["uint", 8, "sat"], ["uint", 64, "sat"]]), max_size=2), slot).map(
         lambda t: ["fixed", ["struct", [["v", ["var", t[0], t[1]]]] + [["x%d" % i, x] for i, x in enumerate(t[2])]], t[3]]
     )
-    level2 = composite(st.one_of(level0, level1, arrays(level1), cyclic))
+    # arrays of composites that have no fields at all: every length is zero whatever the capacity - nothing to enumerate, so nothing
+    # about them may cost anything (an equality shortcut for "small" sets that expands them would walk the whole capacity)
+    hollow = st.tuples(st.sampled_from([["struct", []], ["struct", []], ["delim", ["struct", []], 0]]), slot, st.sampled_from(["fixed", "fixed", "var"])).map(lambda t: [t[2], t[0], t[1]])
+    tiny = st.tuples(hollow, st.lists(st.sampled_from([["uint", 8, "sat"], ["bool"], ["uint", 3, "sat"]]), max_size=2), st.booleans()).map(
+        lambda t: ["struct", ([["items", t[0]]] if t[2] else []) + [["t%d" % i, x] for i, x in enumerate(t[1])] + ([] if t[2] else [["items", t[0]]])]
+    )
+    level2 = composite(st.one_of(level0, level1, arrays(level1), cyclic, hollow))
     level2n = composite(st.one_of(level0, nested1, nested1))
     nested2 = st.tuples(level2n, var_leaf, st.integers(0, 4), st.one_of(slot, small_cap)).map(lambda t: ["var", force_var(t[0], t[1], t[2]), t[3]])
     level3 = composite(st.one_of(level0, level1, level2, arrays(level2), arrays(level1)))
@@ -406,7 +412,7 @@ def _templates() -> st.SearchStrategy:
     # whose capacity is a slot.  (Not `.filter`: Hypothesis records every retried draw of a filter under a key that contains the repr of
     # the strategy, which is megabytes long for this recursive one - a shard of the thorough tier ran out of memory that way.)
     slot_leaf = st.tuples(st.sampled_from([["utf8"], ["byte"], ["uint", 8, "sat"], ["bool"]]), slot).map(lambda t: ["var", t[0], t[1]])
-    return st.tuples(st.one_of(level1, level2, level2n, level2n, level3, level3n, level3n), slot_leaf, st.integers(0, 4)).map(
+    return st.tuples(st.one_of(level1, level2, level2n, level2n, level3, level3n, level3n, tiny), slot_leaf, st.integers(0, 4)).map(
         lambda t: t[0] if len(slots(t[0])) >= 1 else force_var(t[0], t[1], t[2])
     )
 
